@@ -79,7 +79,7 @@ pub fn content(rng: &mut Rng, kind: usize, n: usize) -> Vec<i16> {
     (0..n)
         .map(|i| match kind {
             0 => 3000,
-            1 => -(i as i16) - 1,
+            1 => (-(i as i64) - 1) as i16,
             2 => [i16::MIN, i16::MAX, -1, 0][i % 4],
             3 => rng.next() as i16,
             4 => i16::MIN,
